@@ -21,7 +21,7 @@ ASSUMPTIONS = [
     "row order / index labels compared only where the static flags say the query defines them",
     "float comparison rtol=1e-9 atol=1e-12",
 ]
-BUDGET_S = {"quick": 170, "thorough": 3000}
+BUDGET_S = {"quick": 170, "thorough": 900}
 
 PROFILE_Q = gen.Profile("optimizer", max_steps=6, max_rows=10)
 PROFILE_T = gen.Profile("optimizer", max_steps=10, max_rows=16, n_tables=(1, 3))
